@@ -34,6 +34,31 @@ CHECKS = {
              "model/Dispatch.v mk_ctype).",
         technique="Coq proof (case analysis over the exception ladder, "
                   "invariant over all paths) + vm_compute correspondence"),
+    "C02": dict(
+        text="Theorems: a regex engine for the route subset with a "
+             "derivative acceptor proved equivalent to the relational "
+             "language (whole string and start-anchored prefix) and a "
+             "leftmost-greedy backtracking matcher proved sound and complete "
+             "with captures that are a valid parse; select = select_spec (the "
+             "documented precedence) with corollaries static-beats-pattern, "
+             "first-pattern-wins, method-mismatch-falls-through, unknown-"
+             "method-is-GET, re-registration keeps position; the route text "
+             "compiles to exactly the structured expression, inline :re: "
+             "expressions verbatim; a group route accepts a path iff it "
+             "consists of the literal text and filter-accepted segments "
+             "(whole path, no trailing newline), and the handler receives "
+             "conv_i(segment_i) in order and by name (these four _partial: "
+             "for routes inside the modelled regex subset). Correspondence "
+             "of regex matching with CPython re, of tables and of selection "
+             "through real Applications; reference router on re.fullmatch.",
+        design="7/C02",
+        note="CPython re modelled on a subset (fails closed outside it); "
+             "non-ASCII character classes from a table derived at run time; "
+             "int/float/UUID converters modelled on the shapes the filters "
+             "let through; file-system facts are inputs.",
+        technique="Coq proof (regex derivatives, backtracking matcher "
+                  "soundness/completeness, list induction) + vm_compute "
+                  "correspondence"),
     "C03": dict(
         text="Theorems: for hook lists of any length the before hooks that "
              "run are exactly hooks 0..k in order (k = first stopping hook), "
